@@ -108,136 +108,232 @@ theorem charsOf_u16_of_bmp (l : Txt) (n : Nat) (hn : n ≤ l.length)
 
 /-! ### From positions of the tree to LSP positions -/
 
-theorem posOK_of_posSound {doc : Txt} {p : Pos} (h : posSound u16w doc p = true) :
-    posOK doc (p.line - 1) (p.col - 1) = true := by
-  simp only [posSound, Bool.and_eq_true, decide_eq_true_eq] at h
-  unfold posOK charsOfUnits
-  split <;> simp_all
-
-/-- Rune columns are UTF-16 columns where no non-BMP rune precedes. -/
-theorem posSound_u16_of_rune {doc : Txt} {p : Pos} (h : posSound one doc p = true)
-    (hb : bmpBefore doc p = true) : posSound u16w doc p = true := by
-  simp only [posSound, Bool.and_eq_true, decide_eq_true_eq] at h ⊢
-  refine ⟨h.1, ?_⟩
-  unfold bmpBefore at hb
-  cases hl : (docLines doc)[p.line - 1]? with
-  | none => simp [hl] at h
-  | some ln =>
-    simp only [hl] at h hb ⊢
-    rw [charsOf_one] at h
-    have hle : p.col - 1 ≤ ln.length := by
-      by_cases hc : p.col - 1 ≤ ln.length
-      · exact hc
-      · simp [hc] at h
-    rw [charsOf_u16_of_bmp ln _ hle]
-    · rfl
-    · intro c hc
-      simp only [List.all_eq_true, decide_eq_true_eq] at hb
-      exact hb c hc
-
-theorem posSound_unit {utf16 : Bool} {doc : Txt} {p : Pos} (h : posSound (unitOf utf16) doc p = true)
-    (hb : utf16 = true ∨ bmpBefore doc p = true) : posSound u16w doc p = true := by
-  cases utf16 with
-  | true => simpa [unitOf] using h
-  | false =>
-    simp only [unitOf, Bool.false_eq_true, if_false] at h
-    cases hb with
-    | inl h' => cases h'
-    | inr h' => exact posSound_u16_of_rune h h'
-
-theorem toN_conv {r : Rng} (hm : rngSmall r = true) (h1 : 1 ≤ r.start.line) (h2 : 1 ≤ r.start.col)
-    (h3 : 1 ≤ r.stop.line) (h4 : 1 ≤ r.stop.col) :
-    toN (astRangeToProtocol r) = ⟨r.start.line - 1, r.start.col - 1, r.stop.line - 1, r.stop.col - 1⟩ := by
-  simp only [rngSmall, Bool.and_eq_true, decide_eq_true_eq] at hm
-  obtain ⟨⟨⟨m1', m2⟩, m3⟩, m4⟩ := hm
-  simp only [toN, astRangeToProtocol]
-  rw [m1_toNat h1 m1', m1_toNat h2 m2, m1_toNat h3 m3, m1_toNat h4 m4]
-
-/-- `astRangeToProtocol` of a range whose ends are UTF-16-column positions of the text. -/
-theorem conv_rangeOK {doc : Txt} {r : Rng} (hs : rngSound u16w doc r = true)
-    (hm : rngSmall r = true) : rangeOK doc (toN (astRangeToProtocol r)) = true := by
-  simp only [rngSound, Bool.and_eq_true] at hs
-  obtain ⟨⟨h1, h2⟩, h3⟩ := hs
-  have p1 := posOK_of_posSound h1
-  have p2 := posOK_of_posSound h2
-  simp only [posSound, Bool.and_eq_true, decide_eq_true_eq] at h1 h2
-  rw [toN_conv hm h1.1.1 h1.1.2 h2.1.1 h2.1.2]
-  simp only [rangeOK, Bool.and_eq_true]
-  refine ⟨⟨p1, p2⟩, ?_⟩
-  simp only [posLe, leqPos, Bool.or_eq_true, Bool.and_eq_true, decide_eq_true_eq, beq_iff_eq] at h3 ⊢
+theorem u16len_take_le (l : Txt) (k : Nat) : u16len (l.take k) ≤ u16len l := by
+  have h : u16len l = u16len (l.take k) + u16len (l.drop k) := by
+    rw [← u16len_append, List.take_append_drop]
   omega
 
-/-- … and it covers exactly the chars between its two columns. -/
-theorem conv_covers {doc : Txt} {r : Rng} {lex : Txt} (hl : lexSound u16w doc r lex = true)
-    (hm : rngSmall r = true) : covers doc (toN (astRangeToProtocol r)) lex = true := by
+/-- Prefixes of any length (also past the end) are ordered by UTF-16 length. -/
+theorem u16len_take_mono' (l : Txt) {a b : Nat} (hab : a ≤ b) :
+    u16len (l.take a) ≤ u16len (l.take b) := by
+  have : l.take a = (l.take b).take a := by rw [List.take_take, Nat.min_eq_left hab]
+  rw [this]; exact u16len_take_le _ _
+
+theorem stripCR_prefix (l : Txt) : ∃ suf, l = stripCR l ++ suf := by
+  unfold stripCR
+  split
+  · exact ⟨l.drop (l.length - 1), by simp [List.dropLast_eq_take]⟩
+  · exact ⟨[], by simp⟩
+
+theorem docLines_get (doc : Txt) (i : Nat) : (docLines doc)[i]? = ((lines doc)[i]?).map stripCR := by
+  simp [docLines]
+
+theorem take_stripCR (raw : Txt) {k : Nat} (hk : k ≤ (stripCR raw).length) :
+    raw.take k = (stripCR raw).take k := by
+  obtain ⟨suf, hsuf⟩ := stripCR_prefix raw
+  have e : raw.take k = (stripCR raw ++ suf).take k := by rw [← hsuf]
+  rw [e, List.take_append_of_le_length hk]
+
+def rngPos (r : Rng) : Bool :=
+  decide (1 ≤ r.start.line) && decide (1 ≤ r.start.col) && decide (1 ≤ r.stop.line) && decide (1 ≤ r.stop.col)
+
+/-- The wire value of the character `columnMapper.lineColumn` computes for `p`: the UTF-16 length
+    of the first `col − 1` runes of `p`'s line (the column itself where the mapper has no such
+    line). -/
+def cc (lns : List Txt) (p : Pos) : Nat :=
+  match lns[p.line - 1]? with
+  | some ln => u16len (ln.take (p.col - 1))
+  | none => p.col - 1
+
+/-- Every line of the mapper is shorter than 2³² UTF-16 units. -/
+def linesSmall (lns : List Txt) : Prop := ∀ ln ∈ lns, u16len ln < 4294967296
+
+theorem docSmall_lines {doc : Txt} (h : docSmall doc = true) : linesSmall (lines doc) := by
+  simp only [docSmall, Bool.and_eq_true, List.all_eq_true, decide_eq_true_eq] at h
+  exact h.2
+
+theorem docSmall_length {doc : Txt} (h : docSmall doc = true) : (lines doc).length < 4294967296 := by
+  simp only [docSmall, Bool.and_eq_true, List.all_eq_true, decide_eq_true_eq] at h
+  exact h.1
+
+/-- On a line the mapper has, the converted character is the UTF-16 length of the prefix,
+    whatever the column. -/
+theorem convChar_toNat_some {lns : List Txt} {line col : Nat} {ln : Txt} (hs : linesSmall lns)
+    (h1 : 1 ≤ line) (hl : lns[line - 1]? = some ln) :
+    (convChar lns line col).toNat = u16len (ln.take (col - 1)) := by
+  unfold convChar
+  have h0 : line ≠ 0 := by omega
+  simp only [h0, if_false, hl]
+  rw [UInt32.toNat_ofNat']
+  have := hs ln (List.mem_of_getElem? hl)
+  have := u16len_take_le ln (col - 1)
+  omega
+
+theorem convChar_toNat {lns : List Txt} {p : Pos} (hs : linesSmall lns) (h1 : 1 ≤ p.line)
+    (h2 : 1 ≤ p.col) (h3 : p.col < 4294967296) : (convChar lns p.line p.col).toNat = cc lns p := by
+  unfold cc
+  cases hl : lns[p.line - 1]? with
+  | some ln => exact convChar_toNat_some hs h1 hl
+  | none =>
+    unfold convChar
+    have h0 : p.line ≠ 0 := by omega
+    simp only [h0, if_false, hl]
+    exact m1_toNat h2 h3
+
+theorem toN_conv {lns : List Txt} {r : Rng} (hs : linesSmall lns) (hm : rngSmall r = true)
+    (hp : rngPos r = true) :
+    toN (astRangeToProtocol lns r) = ⟨r.start.line - 1, cc lns r.start, r.stop.line - 1, cc lns r.stop⟩ := by
+  simp only [rngSmall, rngPos, Bool.and_eq_true, decide_eq_true_eq] at hm hp
+  obtain ⟨⟨⟨m1', m2⟩, m3⟩, m4⟩ := hm
+  obtain ⟨⟨⟨p1, p2⟩, p3⟩, p4⟩ := hp
+  simp only [toN, astRangeToProtocol]
+  rw [m1_toNat p1 m1', m1_toNat p3 m3, convChar_toNat hs p1 p2 m2, convChar_toNat hs p3 p4 m4]
+
+theorem cc_mono {lns : List Txt} {a b : Pos} (hl : a.line = b.line) (hc : a.col ≤ b.col) :
+    cc lns a ≤ cc lns b := by
+  unfold cc
+  rw [hl]
+  split
+  · exact u16len_take_mono' _ (by omega)
+  · omega
+
+theorem leqPos_conv {lns : List Txt} {x y : Pos} (hx : 1 ≤ x.line) (h : posLe x y = true) :
+    leqPos (x.line - 1) (cc lns x) (y.line - 1) (cc lns y) = true := by
+  simp only [posLe, leqPos, Bool.or_eq_true, Bool.and_eq_true, decide_eq_true_eq, beq_iff_eq] at h ⊢
+  rcases h with h | ⟨h1, h2⟩
+  · left; omega
+  · right; exact ⟨by omega, cc_mono h1 h2⟩
+
+/-- What a position of the text in rune columns gives: its line exists in the mapper, the
+    column is within the line (CR excluded), and the converted character is the UTF-16 length
+    of the prefix of the line as the client sees it. -/
+theorem posSound_line {doc : Txt} {p : Pos} (h : posSound one doc p = true) :
+    1 ≤ p.line ∧ 1 ≤ p.col ∧ ∃ raw, (lines doc)[p.line - 1]? = some raw ∧
+      p.col - 1 ≤ (stripCR raw).length ∧
+      cc (lines doc) p = u16len ((stripCR raw).take (p.col - 1)) := by
+  simp only [posSound, Bool.and_eq_true, decide_eq_true_eq] at h
+  obtain ⟨⟨h1, h2⟩, h3⟩ := h
+  refine ⟨h1, h2, ?_⟩
+  rw [docLines_get] at h3
+  cases hl : (lines doc)[p.line - 1]? with
+  | none => simp [hl] at h3
+  | some raw =>
+    simp only [hl, Option.map_some, charsOf_one] at h3
+    have hle : p.col - 1 ≤ (stripCR raw).length := by
+      by_cases hc : p.col - 1 ≤ (stripCR raw).length
+      · exact hc
+      · simp [hc] at h3
+    refine ⟨raw, rfl, hle, ?_⟩
+    unfold cc
+    rw [hl]
+    simp only []
+    rw [take_stripCR raw hle]
+
+theorem posOK_conv {doc : Txt} {p : Pos} (h : posSound one doc p = true) :
+    posOK doc (p.line - 1) (cc (lines doc) p) = true := by
+  obtain ⟨_, _, raw, hl, hle, hcc⟩ := posSound_line h
+  unfold posOK charsOfUnits
+  rw [docLines_get, hl, hcc]
+  simp only [Option.map_some]
+  rw [charsOf_u16_take _ _ hle]
+  rfl
+
+/-- The wire values of a converted range whose two ends are positions of the text. -/
+theorem toN_conv_sound {doc : Txt} {r : Rng} (hs : rngSound one doc r = true) (hd : docSmall doc = true) :
+    toN (astRangeToProtocol (lines doc) r) =
+      ⟨r.start.line - 1, cc (lines doc) r.start, r.stop.line - 1, cc (lines doc) r.stop⟩ := by
+  simp only [rngSound, Bool.and_eq_true] at hs
+  obtain ⟨⟨h1, h2⟩, _⟩ := hs
+  obtain ⟨a1, _, raw1, hl1, _, _⟩ := posSound_line h1
+  obtain ⟨b1, _, raw2, hl2, _, _⟩ := posSound_line h2
+  have hn := docSmall_length hd
+  have hsm := docSmall_lines hd
+  have e1 : r.start.line - 1 < (lines doc).length := (List.getElem?_eq_some_iff.mp hl1).1
+  have e2 : r.stop.line - 1 < (lines doc).length := (List.getElem?_eq_some_iff.mp hl2).1
+  simp only [toN, astRangeToProtocol]
+  rw [m1_toNat a1 (by omega), m1_toNat b1 (by omega), convChar_toNat_some hsm a1 hl1,
+    convChar_toNat_some hsm b1 hl2]
+  simp only [cc, hl1, hl2]
+
+/-- `columnMapper.toProtocol` of a range whose ends are positions of the text in rune columns is
+    a well-formed range of the document — whatever characters precede it. -/
+theorem conv_rangeOK {doc : Txt} {r : Rng} (hs : rngSound one doc r = true) (hd : docSmall doc = true) :
+    rangeOK doc (toN (astRangeToProtocol (lines doc) r)) = true := by
+  rw [toN_conv_sound hs hd]
+  simp only [rngSound, Bool.and_eq_true] at hs
+  obtain ⟨⟨h1, h2⟩, h3⟩ := hs
+  obtain ⟨a1, _, _⟩ := posSound_line h1
+  simp only [rangeOK, Bool.and_eq_true]
+  exact ⟨⟨posOK_conv h1, posOK_conv h2⟩, leqPos_conv a1 h3⟩
+
+/-- A range that delimits a lexeme is a range of the text. -/
+theorem rngSound_of_lexSound {doc : Txt} {r : Rng} {lex : Txt} (hl : lexSound one doc r lex = true) :
+    rngSound one doc r = true := by
   simp only [lexSound, Bool.and_eq_true, decide_eq_true_eq, beq_iff_eq] at hl
   obtain ⟨⟨⟨⟨l1, l2⟩, c1⟩, c2⟩, hl⟩ := hl
-  rw [toN_conv hm l1 c1 (l2 ▸ l1) c2, ← l2]
   cases hln : (docLines doc)[r.start.line - 1]? with
   | none => simp [hln] at hl
   | some ln =>
-    simp only [hln] at hl
-    cases ha : charsOf u16w ln (r.start.col - 1) with
-    | none => simp [ha] at hl
-    | some a =>
-      cases hb : charsOf u16w ln (r.stop.col - 1) with
-      | none => simp [ha, hb] at hl
-      | some b =>
-        simp only [ha, hb, Bool.and_eq_true, decide_eq_true_eq, beq_iff_eq] at hl
-        obtain ⟨hab, hlex⟩ := hl
-        have ua := charsOf_u16_spec ha
-        have ub := charsOf_u16_spec hb
-        have lb := charsOf_some_le hb
-        have hcol : r.start.col - 1 ≤ r.stop.col - 1 := by
-          rw [← ua, ← ub]
-          rcases Nat.lt_or_ge a b with h | h
-          · exact Nat.le_of_lt (u16len_take_lt ln b a h lb)
-          · have : a = b := by omega
-            subst this; exact Nat.le_refl _
-        simp only [covers, rangeOK, slice, posOK, charsOfUnits, hln, ha, hb, Option.isSome_some, leqPos, ne_eq,
-          not_true_eq_false, if_false, hab, if_true, hlex, Bool.and_eq_true, beq_self_eq_true, Bool.or_eq_true,
-          decide_eq_true_eq, true_and, and_true]
-        right; exact hcol
+    simp only [hln, charsOf_one] at hl
+    by_cases h1 : r.start.col - 1 ≤ ln.length
+    · by_cases h2 : r.stop.col - 1 ≤ ln.length
+      · simp only [h1, h2, if_true, Bool.and_eq_true, decide_eq_true_eq] at hl
+        simp only [rngSound, posSound, posLe, ← l2, hln, charsOf_one, h1, h2, if_true, Option.isSome_some,
+          Bool.and_eq_true, Bool.or_eq_true, decide_eq_true_eq, beq_iff_eq, and_true]
+        refine ⟨⟨⟨l1, c1⟩, ⟨l1, c2⟩⟩, Or.inr ⟨trivial, by omega⟩⟩
+      · simp [h1, h2] at hl
+    · simp [h1] at hl
 
-theorem rngSound_unit {utf16 : Bool} {doc : Txt} {r : Rng} (h : rngSound (unitOf utf16) doc r = true)
-    (hb : utf16 = true ∨ (bmpBefore doc r.start = true ∧ bmpBefore doc r.stop = true)) :
-    rngSound u16w doc r = true := by
-  simp only [rngSound, Bool.and_eq_true] at h ⊢
-  refine ⟨⟨posSound_unit h.1.1 ?_, posSound_unit h.1.2 ?_⟩, h.2⟩
-  · cases hb with
-    | inl h => exact Or.inl h
-    | inr h => exact Or.inr h.1
-  · cases hb with
-    | inl h => exact Or.inl h
-    | inr h => exact Or.inr h.2
+/-- … and the converted range covers exactly the chars between its two rune columns. -/
+theorem conv_covers {doc : Txt} {r : Rng} {lex : Txt} (hl : lexSound one doc r lex = true)
+    (hd : docSmall doc = true) : covers doc (toN (astRangeToProtocol (lines doc) r)) lex = true := by
+  have hs := rngSound_of_lexSound hl
+  have hok := conv_rangeOK hs hd
+  simp only [covers, hok, Bool.true_and]
+  rw [toN_conv_sound hs hd]
+  simp only [rngSound, Bool.and_eq_true] at hs
+  obtain ⟨⟨h1, h2⟩, _⟩ := hs
+  obtain ⟨_, _, raw1, hl1, hle1, hcc1⟩ := posSound_line h1
+  obtain ⟨_, _, raw2, hl2, hle2, hcc2⟩ := posSound_line h2
+  simp only [lexSound, Bool.and_eq_true, decide_eq_true_eq, beq_iff_eq] at hl
+  obtain ⟨⟨⟨⟨l1, l2⟩, c1⟩, c2⟩, hl⟩ := hl
+  rw [← l2] at hl2
+  rw [hl1] at hl2
+  cases hl2
+  rw [docLines_get, hl1] at hl
+  simp only [Option.map_some, charsOf_one, hle1, hle2, if_true, Bool.and_eq_true, decide_eq_true_eq,
+    beq_iff_eq] at hl
+  obtain ⟨hab, hlex⟩ := hl
+  simp only [slice, ← l2, ne_eq, not_true_eq_false, if_false, docLines_get, hl1, Option.map_some, charsOfUnits,
+    hcc1, hcc2]
+  rw [charsOf_u16_take _ _ hle1, charsOf_u16_take _ _ hle2]
+  simp only [hab, if_true, hlex, beq_self_eq_true]
 
-/-- Any range stored in the tree converts to a well-formed LSP range under `convGuard`. -/
-theorem node_rangeOK {utf16 : Bool} {doc : Txt} {j : Journal} {r : Rng}
-    (ht : TreePositionsSound (unitOf utf16) doc j = true) (hr : r ∈ nodeRanges j)
-    (hg : convGuard utf16 doc r = true) : rangeOK doc (toN (astRangeToProtocol r)) = true := by
+/-- Any range stored in the tree that has an End converts to a well-formed LSP range. -/
+theorem node_rangeOK {doc : Txt} {j : Journal} {r : Rng}
+    (ht : TreePositionsSound one doc j = true) (hd : docSmall doc = true) (hr : r ∈ nodeRanges j)
+    (hg : hasEnd r = true) : rangeOK doc (toN (astRangeToProtocol (lines doc) r)) = true := by
   simp only [TreePositionsSound, List.all_eq_true, Bool.or_eq_true] at ht
-  simp only [convGuard, Bool.and_eq_true, Bool.or_eq_true] at hg
-  obtain ⟨⟨hz, hm⟩, hb⟩ := hg
   have hz' : ¬ (r.stop == Pos.zero) = true := by
-    intro h; simp [bne, h] at hz
-  have hs := (ht r hr).resolve_left hz'
-  exact conv_rangeOK (rngSound_unit hs hb) hm
+    intro h; simp [hasEnd, bne, h] at hg
+  exact conv_rangeOK ((ht r hr).resolve_left hz') hd
 
 /-- The same for a list of converted ranges. -/
-theorem map_conv_rangeOK {utf16 : Bool} {doc : Txt} {j : Journal} {rs : List Rng}
-    (ht : TreePositionsSound (unitOf utf16) doc j = true) (hsub : ∀ r ∈ rs, r ∈ nodeRanges j)
-    (hg : ∀ r ∈ rs, convGuard utf16 doc r = true) :
-    ∀ x ∈ rs.map astRangeToProtocol, rangeOK doc (toN x) = true := by
+theorem map_conv_rangeOK {doc : Txt} {j : Journal} {rs : List Rng}
+    (ht : TreePositionsSound one doc j = true) (hd : docSmall doc = true)
+    (hsub : ∀ r ∈ rs, r ∈ nodeRanges j) (hg : ∀ r ∈ rs, hasEnd r = true) :
+    ∀ x ∈ rs.map (astRangeToProtocol (lines doc)), rangeOK doc (toN x) = true := by
   intro x hx
   obtain ⟨r, hr, rfl⟩ := List.mem_map.mp hx
-  exact node_rangeOK ht (hsub r hr) (hg r hr)
+  exact node_rangeOK ht hd (hsub r hr) (hg r hr)
 
 /-! ### Which ranges the features convert -/
 
 def symbolRanges (j : Journal) : List Rng :=
   j.transactions.map (·.range) ++ j.directives.map (·.range) ++ j.includes.map (·.range)
 
-theorem documentSymbols_eq (j : Journal) : documentSymbols j = (symbolRanges j).map astRangeToProtocol := by
+theorem documentSymbols_eq (lns : List Txt) (j : Journal) :
+    documentSymbols lns j = (symbolRanges j).map (astRangeToProtocol lns) := by
   simp [documentSymbols, symbolRanges, List.map_append, Function.comp_def]
 
 theorem tx_range_mem {j : Journal} {tx : Transaction} (h : tx ∈ j.transactions) {r : Rng}
@@ -378,9 +474,9 @@ theorem defDirective_node {j : Journal} {d : Directive} {c : Cur} {h : Hit}
   | year y r => simp [defDirective] at hh
   | defaultCommodity sy f r => simp [defDirective] at hh
 
-theorem findDefinitionTarget_node {j : Journal} {c : Cur} {h : Hit}
-    (hh : findDefinitionTarget j c = some h) : hitNode j h := by
-  unfold findDefinitionTarget at hh
+theorem findDefinitionTargetR_node {j : Journal} {c : Cur} {h : Hit}
+    (hh : findDefinitionTargetR j c = some h) : hitNode j h := by
+  unfold findDefinitionTargetR at hh
   split at hh
   · rename_i h' hf
     simp at hh; subst hh
@@ -393,6 +489,10 @@ theorem findDefinitionTarget_node {j : Journal} {c : Cur} {h : Hit}
       exact defPosting_node ht hp hpp
   · obtain ⟨d, hd, hdd⟩ := List.exists_of_findSome?_eq_some hh
     exact defDirective_node hd hdd
+
+theorem findDefinitionTarget_node {lns : List Txt} {j : Journal} {c : Cur} {h : Hit}
+    (hh : findDefinitionTarget lns j c = some h) : hitNode j h :=
+  findDefinitionTargetR_node hh
 
 theorem earliest_mem {best : Option (Date × Rng)} {l : List (Date × Rng)} {x : Date × Rng}
     (h : earliest best l = some x) : best = some x ∨ x ∈ l := by
@@ -598,32 +698,32 @@ theorem workspaceSymbolHits_node {j : Journal} {h : Hit} (hh : h ∈ workspaceSy
   simp only [workspaceSymbolHits, List.mem_append, List.mem_filterMap] at hh
   rcases hh with ⟨d, hd, hdd⟩ | hh
   · split at hdd
-    · simp at hdd; subst hdd; exact Or.inr (dir_range_mem hd (by simp [directiveRanges]))
-    · simp at hdd; subst hdd; exact Or.inr (dir_range_mem hd (by simp [directiveRanges]))
+    · simp at hdd; subst hdd; exact Or.inl rfl
+    · simp at hdd; subst hdd; exact Or.inl rfl
     · simp at hdd
   · exact Or.inl (payeeSymbols_derived hh)
 
 /-- Guard of a located element.  Payee estimates, the two halves of a tag and the `nameRange`s of
-    definition / references / rename are computed by column arithmetic, not stored in the tree:
-    the guard asks that the computed columns be UTF-16-column positions of the text (this is
-    what fails when a code, extra blanks or `payee | note` surround the payee, non-ASCII text
-    precedes a tag, the name holds a non-BMP rune while columns count runes, or a directive's
-    commodity is quoted).  Every other element carries a range of the tree and needs
-    `convGuard`. -/
-def hitGuard (utf16 : Bool) (doc : Txt) (h : Hit) : Bool :=
-  if h.derived then rngSound u16w doc h.rng && rngSmall h.rng else convGuard utf16 doc h.rng
+    definition / references / rename / workspace symbols are computed by column arithmetic, not
+    stored in the tree: the guard asks that the computed rune columns be positions of the text
+    (this is what fails when a code, extra blanks or `payee | note` surround the payee, or a
+    directive's commodity is quoted).  Every other element carries a
+    range of the tree and only needs an End.  Nothing is asked about the characters that
+    precede the range. -/
+def hitGuard (doc : Txt) (h : Hit) : Bool :=
+  if h.derived then rngSound one doc h.rng else hasEnd h.rng
 
-theorem hit_rangeOK {utf16 : Bool} {doc : Txt} {j : Journal} {h : Hit}
-    (ht : TreePositionsSound (unitOf utf16) doc j = true) (hn : hitNode j h)
-    (hg : hitGuard utf16 doc h = true) : rangeOK doc (toN (astRangeToProtocol h.rng)) = true := by
+theorem hit_rangeOK {doc : Txt} {j : Journal} {h : Hit}
+    (ht : TreePositionsSound one doc j = true) (hd : docSmall doc = true) (hn : hitNode j h)
+    (hg : hitGuard doc h = true) : rangeOK doc (toN (astRangeToProtocol (lines doc) h.rng)) = true := by
   unfold hitGuard at hg
   unfold hitNode at hn
   split at hg
-  · simp only [Bool.and_eq_true] at hg; exact conv_rangeOK hg.1 hg.2
-  · rename_i hd
+  · exact conv_rangeOK hg hd
+  · rename_i hdv
     rcases hn with hn | hn
-    · exact absurd hn hd
-    · exact node_rangeOK ht hn hg
+    · exact absurd hn hdv
+    · exact node_rangeOK ht hd hn hg
 
 /-! ### Laminar families -/
 
@@ -658,17 +758,18 @@ theorem allPairs_filterMap {α β} {rel : α → α → Bool} {rel' : β → β 
 /-- Half-open position ranges of the tree that do not overlap. -/
 def astDisjoint (a b : Rng) : Bool := posLe a.stop b.start || posLe b.stop a.start
 
-def rngPos (r : Rng) : Bool :=
-  decide (1 ≤ r.start.line) && decide (1 ≤ r.start.col) && decide (1 ≤ r.stop.line) && decide (1 ≤ r.stop.col)
-
-theorem symRel_conv {a b : Rng} (ha : rngSmall a = true) (hb : rngSmall b = true)
-    (pa : rngPos a = true) (pb : rngPos b = true) (h : astDisjoint a b = true) :
-    symRel (toN (astRangeToProtocol a)) (toN (astRangeToProtocol b)) = true := by
+/-- The conversion is monotone on every line, whatever the text: ranges that do not overlap in
+    the tree do not overlap on the wire. -/
+theorem symRel_conv {lns : List Txt} {a b : Rng} (hs : linesSmall lns) (ha : rngSmall a = true)
+    (hb : rngSmall b = true) (pa : rngPos a = true) (pb : rngPos b = true) (h : astDisjoint a b = true) :
+    symRel (toN (astRangeToProtocol lns a)) (toN (astRangeToProtocol lns b)) = true := by
+  rw [toN_conv hs ha pa, toN_conv hs hb pb]
   simp only [rngPos, Bool.and_eq_true, decide_eq_true_eq] at pa pb
-  rw [toN_conv ha pa.1.1.1 pa.1.1.2 pa.1.2 pa.2, toN_conv hb pb.1.1.1 pb.1.1.2 pb.1.2 pb.2]
-  simp only [astDisjoint, posLe, symRel, leqPos, Bool.or_eq_true, Bool.and_eq_true, decide_eq_true_eq,
-    beq_iff_eq] at h ⊢
-  omega
+  simp only [astDisjoint, Bool.or_eq_true] at h
+  simp only [symRel, Bool.or_eq_true]
+  rcases h with h | h
+  · exact Or.inl (Or.inl (Or.inl (leqPos_conv pa.1.2 h)))
+  · exact Or.inl (Or.inl (Or.inr (leqPos_conv pb.1.2 h)))
 
 theorem u32_pred_toNat {e s : UInt32} (h : e > s) : (e - 1).toNat = e.toNat - 1 := by
   have h' : s.toNat < e.toNat := UInt32.lt_iff_toNat_lt.mp h
@@ -721,12 +822,6 @@ theorem txFold_spec {fx : Fixes} {t : Transaction} {f : Fold} (st : rngSmall t.r
 
 /-! ### Completion edit range -/
 
-theorem stripCR_prefix (l : Txt) : ∃ suf, l = stripCR l ++ suf := by
-  unfold stripCR
-  split
-  · exact ⟨l.drop (l.length - 1), by simp [List.dropLast_eq_take]⟩
-  · exact ⟨[], by simp⟩
-
 theorem takeU16_of_charsOf {l : Txt} {n k : Nat} (suf : Txt) (h : charsOf u16w l n = some k) :
     takeU16 (l ++ suf) n = k := by
   induction l generalizing n k with
@@ -755,9 +850,6 @@ theorem u16len_take_mono (l : Txt) {a b : Nat} (hab : a ≤ b) (hb : b ≤ l.len
   · exact Nat.le_of_lt (u16len_take_lt l b a h hb)
   · have : a = b := by omega
     subst this; exact Nat.le_refl _
-
-theorem docLines_get (doc : Txt) (i : Nat) : (docLines doc)[i]? = ((lines doc)[i]?).map stripCR := by
-  simp [docLines]
 
 /-! ### Include links (fix-link-range.diff) -/
 
